@@ -212,8 +212,13 @@ func verifC12MakePlan(r *verifC12Rng, idx int) *verifC12Plan {
 		for i := 0; i < n; i++ {
 			add(ec, a0, small, uint64(r.below(12)))
 		}
-		add(ec, a0, big, uint64(3000+r.below(9000)))
-		add(ec, a1, small, uint64(2000+r.below(1000)))
+		// a far-away sequence in the stream a lost separator would merge in, and one in the neighbouring emitter's stream
+		wide := 1
+		if verifC12Thorough() {
+			wide = 10
+		}
+		add(ec, a0, big, uint64(wide*(300+r.below(900))))
+		add(ec, a1, small, uint64(wide*(200+r.below(100))))
 	case "overwrite":
 		ec, tc := pick(), pick()
 		for i := 0; i < n; i++ {
@@ -569,8 +574,9 @@ func verifC12Monitor(tr *verifC12Truth, p *verifC12Plan, q *verifC12Query, wellF
 
 type verifC12OpRow struct {
 	B     string      `json:"b,omitempty"`   // marshalled VAA (well-formed ops)
-	Odd   string      `json:"odd,omitempty"` // odd ops carry the fields instead
+	Odd   string      `json:"odd,omitempty"` // odd ops carry the fields instead, and what Marshal made of them
 	V     interface{} `json:"v,omitempty"`
+	MB    string      `json:"mb,omitempty"`
 	Panic bool        `json:"panic,omitempty"`
 	Err   bool        `json:"err,omitempty"`
 }
